@@ -328,8 +328,8 @@ static void mode_full(Tape &t)
 		VF_CHECK(!S.established && (sv.error() == r.alert + BR_ERR_SEND_FATAL_ALERT || (r.alt_alert >= 0 && sv.error() == r.alt_alert + BR_ERR_SEND_FATAL_ALERT)),
 			"%s: reference says server alert %d; server error %d, established %d", desc.c_str(), r.alert, sv.error(), S.established);
 		if (sv.error() != r.alert + BR_ERR_SEND_FATAL_ALERT) r.alert = r.alt_alert;
-		// (for protocol_version the alert record itself may carry a version the client does not support: it then fails on the record)
-		VF_CHECK(cl.error() == r.alert + BR_ERR_RECV_FATAL_ALERT || (r.alert == 70 && cl.error() != 0), "%s: client error %d, expected received alert %d", desc.c_str(), cl.error(), r.alert);
+		// the alert must reach the client as an alert (also protocol_version: it travels in a record no client can refuse for its version)
+		VF_CHECK(cl.error() == r.alert + BR_ERR_RECV_FATAL_ALERT, "%s: server sent alert %d (error %d), client ended with error %d instead of %d", desc.c_str(), r.alert, sv.error(), cl.error(), r.alert + BR_ERR_RECV_FATAL_ALERT);
 		stats.cls(fmt("F:alert-%d", r.alert));
 	} else if (r.version < cp.vmin) {
 		VF_CHECK(!S.established && cl.error() == BR_ERR_UNSUPPORTED_VERSION, "%s: server version %04x is below the client's minimum: client error %d", desc.c_str(), r.version, cl.error());
